@@ -9,6 +9,9 @@ Clause kinds (one letter each; c = index of the clause in the list):
   D  [pC qC] (log i [[c1 c2] [c3 c4]])       iteration with destructuring
   R  [pC #* qC] (log i [[c1 c2] [c3 c4]])    iteration with a starred destructuring target (qC is a list)
   E  vC (log i [])                           iteration over an empty iterable
+  Q  vC (log i [vC c2])                      FIRST clause only, shadow mode only: the iterable reads the name the clause
+                                             binds, i.e. the enclosing scope's variable (as in a Python comprehension,
+                                             whose first iterable is evaluated in the enclosing scope)
   F  :if (log i (!= LAST first))             LAST = newest iteration variable (drops its first value)
   S  :setv sC (log i #(ALL))                 ALL = every variable bound so far
   O  :do (log i #(ALL))
@@ -34,7 +37,7 @@ import itertools
 
 ROOTS = ["lfor", "sfor", "dfor", "gfor", "for"]
 CORE_KINDS = ["I", "D", "F", "S", "O"]
-FULL_KINDS = ["I", "D", "R", "F", "S", "O", "A", "C", "B", "E"]
+FULL_KINDS = ["I", "D", "R", "F", "S", "O", "A", "C", "B", "E", "Q"]
 FINALS = {
     "lfor": ["V", "U", "X", "N", "NX"],
     "sfor": ["V", "U", "X", "N", "NX"],
@@ -44,7 +47,7 @@ FINALS = {
 }
 SCOPES = ["module", "function", "class"]
 MODES = ["fresh", "shadow"]
-ITER_KINDS = ("I", "D", "R", "E")
+ITER_KINDS = ("I", "D", "R", "E", "Q")
 
 
 # ---------------------------------------------------------------- space
@@ -63,7 +66,7 @@ def clause_lists(runs):
                 if combo in seen:
                     continue
                 seen.add(combo)
-                ok = True
+                ok = "Q" not in combo[1:]
                 have_iter = False
                 for kind in combo:
                     if kind in ITER_KINDS:
@@ -125,6 +128,13 @@ class _Builder:
             self.names.append(v)
             self.comp_vars.append(v)
             self.last = (v, c * 10 + 1, c * 10 + 2)
+            return ["iter", v, e]
+        if kind == "Q":
+            v = f"v{c}"
+            e = self.slotted_lazy(lambda: self.logged(["lstn", v, c * 10 + 2]))
+            self.names.append(v)
+            self.comp_vars.append(v)
+            self.last = (v, c * 10 + 2, c * 10 + 2)
             return ["iter", v, e]
         if kind == "E":
             e = self.slotted_lazy(lambda: self.logged(["lit", []]))
@@ -293,6 +303,8 @@ def r_expr(e):
         return f"(log {e[1]} {r_expr(e[2])})"
     if op == "tup":
         return "#(" + " ".join(e[1]) + ")"
+    if op == "lstn":
+        return f"[{e[1]} {e[2]}]"
     if op == "lit":
         return r_lit(e[1])
     if op == "ne":
